@@ -286,4 +286,596 @@ theorem sliceToSigned_eq (w : Nat) (hw : 1 ≤ w) (s : Bytes) (hm : isMinimalTC 
       have : inRange true (w + 1) (tcValue (a :: t)) = true := by
         rw [inRange_signed]; omega
       simp [this]
+
+/-- **Pure core, unsigned.**  Same for `slice_to_builtin!(unsigned, …)`. -/
+theorem sliceToUnsigned_eq (w : Nat) (s : Bytes) (hm : isMinimalTC s = true) :
+    sliceToUnsigned w s =
+      .ok (if inRange false w (tcValue s) then some (tcValue s).toNat else none) := by
+  match s, hm with
+  | a :: t, hm =>
+  unfold sliceToUnsigned
+  simp only [byte_and80_ne0]
+  by_cases h128 : 128 ≤ a.toNat
+  · have hv := tcValue_of_ge a t h128
+    have hlt := beValue_ltI (a :: t)
+    have : ¬ inRange false w (tcValue (a :: t)) = true := by
+      rw [inRange_unsigned]; simp only [List.length_cons] at hlt; omega
+    simp [h128, this]
+  · simp only [h128, decide_false, Bool.false_eq_true, if_false]
+    have hv := tcValue_of_lt a t (by omega)
+    by_cases h0 : a = 0
+    · subst h0
+      simp only [beq_self_eq_true, if_true]
+      have hv' : tcValue (0 :: t) = (beValue t : Int) := by
+        rw [hv, beValue_cons]; simp
+      cases t with
+      | nil =>
+        have : inRange false w (tcValue [0]) = true := by
+          rw [inRange_unsigned, hv']; simp [beValue_nil, powI_pos]
+        rw [if_pos this, hv']; simp [beValue_nil]
+      | cons b t' =>
+        rw [isMinimalTC_cons2] at hm
+        have hb : 128 ≤ b.toNat := by
+          have : (0 : UInt8).toNat = 0 := rfl
+          omega
+        have hne : ¬ ((b :: t').length == 0) = true := by simp
+        simp only [hne, Bool.false_eq_true, if_false]
+        by_cases hl : (b :: t').length > w
+        · rw [if_pos hl]
+          have hmono : (256 : Int) ^ w ≤ (256 : Int) ^ t'.length := powI_mono (by simp at hl; omega)
+          have hP := powI_pos t'.length
+          obtain ⟨h3, _⟩ := mul_bounds (b.toNat : Int) 128 255 _ (Int.le_of_lt hP) (by omega)
+            (by have := UInt8.toNat_lt b; omega)
+          have hB0 := beValue_nonnegI t'
+          have : ¬ inRange false w (tcValue (0 :: b :: t')) = true := by
+            rw [inRange_unsigned, hv', beValue_consI]; omega
+          simp [this]
+        · rw [if_neg hl]
+          have hmono : (256 : Int) ^ (b :: t').length ≤ (256 : Int) ^ w := powI_mono (by omega)
+          have hlt := beValue_ltI (b :: t')
+          have : inRange false w (tcValue (0 :: b :: t')) = true := by
+            rw [inRange_unsigned, hv']; omega
+          rw [beValue_replicate_zero, if_pos this, hv']; simp
+    · have hne0 : ¬ (a == 0) = true := by simp [h0]
+      simp only [hne0, Bool.false_eq_true, if_false]
+      have hne : ¬ ((a :: t).length == 0) = true := by simp
+      simp only [hne, Bool.false_eq_true, if_false]
+      have ha1 : 1 ≤ a.toNat := by
+        apply Decidable.byContradiction; intro hn
+        exact h0 (UInt8.toNat_inj.mp (by simp; omega))
+      by_cases hl : (a :: t).length > w
+      · rw [if_pos hl]
+        have hmono : (256 : Int) ^ w ≤ (256 : Int) ^ t.length := powI_mono (by simp at hl; omega)
+        have hP := powI_pos t.length
+        obtain ⟨h3, _⟩ := mul_bounds (a.toNat : Int) 1 255 _ (Int.le_of_lt hP) (by omega)
+          (by have := UInt8.toNat_lt a; omega)
+        have hB0 := beValue_nonnegI t
+        have : ¬ inRange false w (tcValue (a :: t)) = true := by
+          rw [inRange_unsigned, hv, beValue_consI]; omega
+        simp [this]
+      · rw [if_neg hl]
+        have hmono : (256 : Int) ^ (a :: t).length ≤ (256 : Int) ^ w := powI_mono (by omega)
+        have hlt := beValue_ltI (a :: t)
+        have : inRange false w (tcValue (a :: t)) = true := by
+          rw [inRange_unsigned, hv]; omega
+        rw [beValue_replicate_zero, if_pos this, hv]; simp
+
+/-! ## 3. the source primitives on a primitive value's content window -/
+
+/-- how a primitive value with content `c`, followed by `rest`, is presented to an accessor -/
+abbrev Win (c rest : Bytes) : G0 := St (c ++ rest) (some c.length)
+
+theorem view_St (d : Bytes) (l : Nat) : (St d (some l)).view = d.take l := rfl
+
+theorem view_Win (c rest : Bytes) : (Win c rest).view = c := by
+  simp [G0.view]
+
+theorem run_peek2 (g : G0) :
+    runG0 peek2 g = .ok ((min 2 g.view.length, g.view[0]?, g.view[1]?), g) := by
+  simp [peek2, runG0, stepG0]
+
+theorem run_remaining (d : Bytes) (l : Nat) :
+    runG0 Prim.remaining (St d (some l)) = .ok (l, St d (some l)) := by
+  unfold Prim.remaining
+  simp only [runG0_bind, run_getLimit, runG0_pure]
+
+theorem run_takeOptU8_nil (rest : Bytes) : runG0 takeOptU8 (Win [] rest) = .ok (none, Win [] rest) := by
+  simp [takeOptU8, runG0, stepG0, G0.view]
+
+theorem run_takeOptU8_cons (x : UInt8) (c rest : Bytes) :
+    runG0 takeOptU8 (Win (x :: c) rest) = .ok (some x, Win c rest) := by
+  simp [takeOptU8, runG0, stepG0, G0.view, G0.advance]
+
+theorem run_takeU8_nil (rest : Bytes) : runG0 takeU8 (Win [] rest) = .error .content := by
+  unfold takeU8
+  rw [runG0_bind, run_takeOptU8_nil]; rfl
+
+theorem run_takeU8_cons (x : UInt8) (c rest : Bytes) :
+    runG0 takeU8 (Win (x :: c) rest) = .ok (x, Win c rest) := by
+  unfold takeU8
+  rw [runG0_bind, run_takeOptU8_cons]; rfl
+
+theorem run_sliceN (c rest : Bytes) :
+    runG0 (sliceN c.length) (Win c rest) = .ok (c, Win c rest) := by
+  simp [sliceN, runG0, stepG0, G0.view]
+
+theorem run_skipN (c rest : Bytes) :
+    runG0 (skipN c.length) (Win c rest) = .ok ((), Win [] rest) := by
+  have : ¬ (c.length + rest.length < c.length) := by omega
+  simp [skipN, runG0, stepG0, G0.view, G0.advance, this]
+
+theorem run_need_Win (c rest : Bytes) :
+    runG0 (need c.length) (Win c rest) = .ok (true, Win c rest) := by
+  rw [run_need, view_Win]; simp
+
+theorem run_exhausted_Win (c rest : Bytes) :
+    runG0 limitedExhausted (Win c rest) = if c = [] then .ok ((), Win [] rest) else .error .content := by
+  rw [run_limitedExhausted]
+  cases c <;> simp
+
+/-- an accessor `p` applied to content `c` (followed by `rest`), then the framework's
+    `LimitedSource::exhausted` check -/
+def primRun (p : Prog α) (c rest : Bytes) : Res (α × G0) :=
+  runG0 (do let a ← p; limitedExhausted; pure a) (St (c ++ rest) (some c.length))
+
+theorem primRun_eq (p : Prog α) (c rest : Bytes) :
+    primRun p c rest = match runG0 p (Win c rest) with
+      | .ok (a, g) => (match runG0 limitedExhausted g with
+        | .ok (_, g') => .ok (a, g')
+        | .error e => .error e)
+      | .error e => .error e := by
+  unfold primRun
+  rw [runG0_bind]
+  cases runG0 p (Win c rest) with
+  | error e => rfl
+  | ok r =>
+    obtain ⟨a, g⟩ := r
+    simp only [runG0_bind]
+    cases runG0 limitedExhausted g with
+    | error e => rfl
+    | ok r => rfl
+
+/-! ## 4. `check_head` -/
+
+theorem run_checkHeadSigned (c rest : Bytes) :
+    runG0 checkHeadSigned (Win c rest) =
+      if isMinimalTC c then .ok ((), Win c rest) else .error .content := by
+  unfold checkHeadSigned
+  rw [runG0_bind, run_peek2, view_Win]
+  match c with
+  | [] => simp [isMinimalTC]
+  | [a] => simp [isMinimalTC]
+  | a :: b :: t =>
+    simp only [List.length_cons, List.getElem?_cons_zero, List.getElem?_cons_succ, Option.map_some]
+    have hn : ¬ ((min 2 (t.length + 1 + 1) == 0) = true) := by simp
+    simp only [hn, Bool.false_eq_true, if_false]
+    split
+    · rename_i h1 h2
+      simp only [Option.some.injEq, byte_and80_ne0, decide_eq_false_iff_not] at h1 h2
+      have : ¬ isMinimalTC (a :: b :: t) = true := by
+        rw [isMinimalTC_cons2, h1]; simp; omega
+      rw [if_neg this]; rfl
+    · rename_i h1 h2
+      simp only [Option.some.injEq, byte_and80_ne0, decide_eq_true_eq] at h1 h2
+      have : ¬ isMinimalTC (a :: b :: t) = true := by
+        rw [isMinimalTC_cons2, h1]; simp; omega
+      rw [if_neg this]; rfl
+    · rename_i h1 h2
+      simp only [Option.some.injEq, byte_and80_ne0, decide_eq_false_iff_not, decide_eq_true_eq] at h1 h2
+      have : isMinimalTC (a :: b :: t) = true := by
+        rw [isMinimalTC_cons2]
+        constructor
+        · intro ⟨ha, hb⟩; exact h1 (UInt8.toNat_inj.mp ha) (by omega)
+        · intro ⟨ha, hb⟩; exact h2 (UInt8.toNat_inj.mp ha) hb
+      rw [if_pos this]; rfl
+
+theorem run_checkHeadUnsigned_nil (rest : Bytes) :
+    runG0 checkHeadUnsigned (Win [] rest) = .error .content := by
+  unfold checkHeadUnsigned
+  rw [runG0_bind, run_peek2, view_Win]
+  simp
+
+theorem run_checkHeadUnsigned_cons (a : UInt8) (t rest : Bytes) :
+    runG0 checkHeadUnsigned (Win (a :: t) rest) =
+      if isMinimalTC (a :: t) && decide (a.toNat < 128) then .ok ((), Win (a :: t) rest)
+      else .error .content := by
+  unfold checkHeadUnsigned
+  rw [runG0_bind, run_peek2, view_Win]
+  match t with
+  | [] =>
+    simp only [List.length_cons, List.length_nil, List.getElem?_cons_zero, List.getElem?_cons_succ,
+      List.getElem?_nil, Option.map_none]
+    have hn : ¬ ((min 2 (0 + 1) == 0) = true) := by simp
+    simp only [hn, Bool.false_eq_true, if_false, byte_and80_ne0, isMinimalTC, Bool.true_and]
+    by_cases h : a.toNat < 128
+    · have : ¬ 128 ≤ a.toNat := by omega
+      simp [h, this]
+    · have : 128 ≤ a.toNat := by omega
+      simp [h, this]
+  | b :: t =>
+    simp only [List.length_cons, List.getElem?_cons_zero, List.getElem?_cons_succ, Option.map_some]
+    have hn : ¬ ((min 2 (t.length + 1 + 1) == 0) = true) := by simp
+    simp only [hn, Bool.false_eq_true, if_false]
+    split
+    · rename_i h1 h2
+      simp only [Option.some.injEq, byte_and80_ne0, decide_eq_false_iff_not] at h1 h2
+      have : ¬ isMinimalTC (a :: b :: t) = true := by
+        rw [isMinimalTC_cons2, h1]; simp; omega
+      simp [this]
+    · rename_i h1 h2
+      simp only [Option.some.injEq, byte_and80_ne0, decide_eq_true_eq] at h1 h2
+      have : ¬ isMinimalTC (a :: b :: t) = true := by
+        rw [isMinimalTC_cons2, h1]; simp; omega
+      simp [this]
+    · rename_i h1 h2
+      simp only [Option.some.injEq, byte_and80_ne0, decide_eq_false_iff_not, decide_eq_true_eq] at h1 h2
+      have : isMinimalTC (a :: b :: t) = true := by
+        rw [isMinimalTC_cons2]
+        constructor
+        · intro ⟨ha, hb⟩; exact h1 (UInt8.toNat_inj.mp ha) (by omega)
+        · intro ⟨ha, hb⟩; exact h2 (UInt8.toNat_inj.mp ha) hb
+      simp only [this, Bool.true_and, byte_and80_ne0]
+      by_cases h : a.toNat < 128
+      · have : ¬ 128 ≤ a.toNat := by omega
+        simp [h, this]
+      · have : 128 ≤ a.toNat := by omega
+        simp [h, this]
+
+/-! ## 5. the accessors -/
+
+theorem run_liftSlice (f : Bytes → Res (Option α)) (c rest : Bytes) :
+    runG0 (liftSlice f) (Win c rest) = match f c with
+      | .error e => .error e
+      | .ok none => .error .content
+      | .ok (some a) => .ok (a, Win [] rest) := by
+  unfold liftSlice
+  rw [runG0_bind, run_remaining]
+  simp only
+  rw [runG0_bind, run_need_Win]
+  simp only [if_true]
+  rw [runG0_bind, run_sliceN]
+  simp only
+  match f c with
+  | .error e => rfl
+  | .ok none => rfl
+  | .ok (some a) =>
+    simp only
+    rw [runG0_bind, run_skipN]; rfl
+
+/-- the result an accessor must produce for content `c`, given the reference decoder's verdict -/
+def expect (r : Option α) (rest : Bytes) : Res (α × G0) :=
+  match r with
+  | some v => .ok (v, St rest (some 0))
+  | none => .error .content
+
+theorem decodeInt_of_not_minimal (sg : Bool) (w : Nat) (c : Bytes) (h : ¬ isMinimalTC c = true) :
+    decodeInt sg w c = none := by
+  simp [decodeInt, h]
+
+theorem decodeInt_of_minimal (sg : Bool) (w : Nat) (c : Bytes) (h : isMinimalTC c = true) :
+    decodeInt sg w c = if inRange sg w (tcValue c) then some (tcValue c) else none := by
+  simp [decodeInt, h]
+
+theorem primRun_decodeSigned (w : Nat) (hw : 1 ≤ w) (c rest : Bytes) :
+    primRun (decodeSigned w) c rest = expect (decodeInt true w c) rest := by
+  rw [primRun_eq]
+  unfold decodeSigned
+  rw [runG0_bind, run_checkHeadSigned]
+  by_cases hm : isMinimalTC c = true
+  · rw [if_pos hm]
+    simp only
+    rw [run_liftSlice, sliceToSigned_eq w hw c hm, decodeInt_of_minimal _ _ _ hm]
+    by_cases hr : inRange true w (tcValue c) = true
+    · simp only [hr, if_true]
+      rw [run_exhausted_Win]; rfl
+    · simp only [hr, Bool.false_eq_true, if_false]; rfl
+  · rw [if_neg hm, decodeInt_of_not_minimal _ _ _ hm]; rfl
+
+theorem tcValue_neg_of_ge (a : UInt8) (t : Bytes) (h : 128 ≤ a.toNat) : tcValue (a :: t) < 0 := by
+  rw [tcValue_of_ge a t h]
+  have := beValue_ltI (a :: t)
+  simp only [List.length_cons] at this
+  omega
+
+theorem not_inRange_unsigned_of_ge (w : Nat) (a : UInt8) (t : Bytes) (h : 128 ≤ a.toNat) :
+    ¬ inRange false w (tcValue (a :: t)) = true := by
+  rw [inRange_unsigned]
+  have := tcValue_neg_of_ge a t h
+  omega
+
+theorem primRun_decodeUnsigned (w : Nat) (c rest : Bytes) :
+    primRun (do let n ← decodeUnsigned w; pure (n : Int)) c rest = expect (decodeInt false w c) rest := by
+  rw [primRun_eq, runG0_bind]
+  unfold decodeUnsigned
+  rw [runG0_bind]
+  match c with
+  | [] => rw [run_checkHeadUnsigned_nil]; rfl
+  | a :: t =>
+    rw [run_checkHeadUnsigned_cons]
+    by_cases hm : isMinimalTC (a :: t) = true
+    · by_cases ha : a.toNat < 128
+      · simp only [hm, ha, decide_true, Bool.and_self, if_true]
+        rw [run_liftSlice, sliceToUnsigned_eq w _ hm, decodeInt_of_minimal _ _ _ hm]
+        by_cases hr : inRange false w (tcValue (a :: t)) = true
+        · simp only [hr, if_true, runG0_pure]
+          rw [run_exhausted_Win]
+          have h0 : 0 ≤ tcValue (a :: t) := ((inRange_unsigned _ _).mp hr).1
+          simp only [if_true, expect, Int.toNat_of_nonneg h0]
+          rfl
+        · simp only [hr, Bool.false_eq_true, if_false]; rfl
+      · have hr := not_inRange_unsigned_of_ge w a t (by omega)
+        simp only [ha, decide_false, Bool.and_false, Bool.false_eq_true, if_false]
+        rw [decodeInt_of_minimal _ _ _ hm, if_neg hr]; rfl
+    · simp only [hm, Bool.false_and, Bool.false_eq_true, if_false]
+      rw [decodeInt_of_not_minimal _ _ _ hm]; rfl
+
+theorem tcValue_single (a : UInt8) :
+    tcValue [a] = if a.toNat ≥ 128 then (a.toNat : Int) - 256 else (a.toNat : Int) := by
+  rw [tcValue_cons]; simp [sb, beValue_nil]
+
+theorem primRun_i8 (c rest : Bytes) :
+    primRun i8FromPrimitive c rest = expect (decodeInt true 1 c) rest := by
+  rw [primRun_eq]
+  unfold i8FromPrimitive
+  rw [runG0_bind, run_checkHeadSigned]
+  by_cases hm : isMinimalTC c = true
+  · rw [if_pos hm, decodeInt_of_minimal _ _ _ hm]
+    simp only
+    match c, hm with
+    | [a], _ =>
+      rw [runG0_bind, run_takeU8_cons]
+      simp only [runG0_pure]
+      rw [run_exhausted_Win]
+      have hr : inRange true 1 (tcValue [a]) = true := by
+        have := tcValue_range_cons a []
+        rw [(inRange_signed 0 _)]
+        exact this
+      rw [if_pos hr, tcValue_single]
+      rfl
+    | a :: b :: t, hm =>
+      rw [runG0_bind, run_takeU8_cons]
+      simp only [runG0_pure]
+      rw [run_exhausted_Win]
+      have hr : ¬ inRange true 1 (tcValue (a :: b :: t)) = true := by
+        have hbig := tcValue_minimal_big a b t hm
+        have hP := powI_pos t.length
+        rw [(inRange_signed 0 _)]
+        simp only [Int.pow_zero]
+        omega
+      rw [if_neg hr]
+      rfl
+  · rw [if_neg hm, decodeInt_of_not_minimal _ _ _ hm]; rfl
+
+theorem primRun_u8 (c rest : Bytes) :
+    primRun (do let n ← u8FromPrimitive; pure (n : Int)) c rest = expect (decodeInt false 1 c) rest := by
+  rw [primRun_eq, runG0_bind]
+  unfold u8FromPrimitive
+  rw [runG0_bind]
+  match c with
+  | [] => rw [run_checkHeadUnsigned_nil]; rfl
+  | a :: t =>
+    rw [run_checkHeadUnsigned_cons]
+    by_cases hm : isMinimalTC (a :: t) = true
+    · by_cases ha : a.toNat < 128
+      · simp only [hm, ha, decide_true, Bool.and_self, if_true]
+        rw [runG0_bind, run_remaining, decodeInt_of_minimal _ _ _ hm]
+        have hv := tcValue_of_lt a t ha
+        cases t with
+        | nil =>
+          generalize hg : St ([a] ++ rest) (some [a].length) = g
+          simp only [List.length_cons, List.length_nil, Nat.zero_add]
+          subst hg
+          rw [runG0_bind, run_takeU8_cons]
+          simp only [runG0_pure]
+          rw [run_exhausted_Win]
+          have hr : inRange false 1 (tcValue [a]) = true := by
+            rw [inRange_unsigned, hv, beValue_cons]
+            simp [beValue_nil]; omega
+          rw [if_pos hr, hv, beValue_cons]
+          simp [beValue_nil, expect]
+        | cons b t2 =>
+          cases t2 with
+          | nil =>
+            generalize hg : St ([a, b] ++ rest) (some [a, b].length) = g
+            simp only [List.length_cons, List.length_nil, Nat.zero_add]
+            subst hg
+            rw [runG0_bind, run_takeU8_cons]
+            simp only
+            have hb := UInt8.toNat_lt b
+            by_cases h0 : a = 0
+            · subst h0
+              simp only [bne_self_eq_false, Bool.false_eq_true, if_false]
+              rw [runG0_bind, run_takeU8_cons]
+              simp only [runG0_pure]
+              rw [run_exhausted_Win]
+              have hv' : tcValue [0, b] = (b.toNat : Int) := by
+                rw [hv, beValue_cons, beValue_cons]; simp [beValue_nil]
+              have hr : inRange false 1 (tcValue [0, b]) = true := by
+                rw [inRange_unsigned, hv']; simp; omega
+              rw [if_pos hr, hv']
+              simp [expect]
+            · have hne : (a != 0) = true := by simp [h0]
+              simp only [hne, if_true, runG0_contentErr]
+              have ha1 : 1 ≤ a.toNat := by
+                apply Decidable.byContradiction; intro hn
+                exact h0 (UInt8.toNat_inj.mp (by simp; omega))
+              have hr : ¬ inRange false 1 (tcValue [a, b]) = true := by
+                rw [inRange_unsigned, hv, beValue_cons, beValue_cons]
+                simp [beValue_nil]; omega
+              rw [if_neg hr]; rfl
+          | cons b2 t' =>
+            generalize hg : St ((a :: b :: b2 :: t') ++ rest) (some (a :: b :: b2 :: t').length) = g
+            simp only [List.length_cons, runG0_contentErr]
+            have hr : ¬ inRange false 1 (tcValue (a :: b :: b2 :: t')) = true := by
+              have hbig := tcValue_minimal_big a b (b2 :: t') hm
+              have hneg : 0 ≤ tcValue (a :: b :: b2 :: t') := by rw [hv]; exact beValue_nonnegI _
+              have hP := powI_pos t'.length
+              rw [inRange_unsigned]
+              simp only [List.length_cons, powI_succ, Int.pow_zero] at hbig ⊢
+              omega
+            rw [if_neg hr]; rfl
+      · have hr := not_inRange_unsigned_of_ge 1 a t (by omega)
+        simp only [ha, decide_false, Bool.and_false, Bool.false_eq_true, if_false]
+        rw [decodeInt_of_minimal _ _ _ hm, if_neg hr]; rfl
+    · simp only [hm, Bool.false_and, Bool.false_eq_true, if_false]
+      rw [decodeInt_of_not_minimal _ _ _ hm]; rfl
+
+theorem shl8_or (a b : UInt8) : (a.toNat <<< 8) ||| b.toNat = a.toNat * 256 + b.toNat := by
+  have := shl_or a.toNat b.toNat 8 (UInt8.toNat_lt b)
+  simpa using this
+
+theorem beValue_two (a b : UInt8) : beValue [a, b] = a.toNat * 256 + b.toNat := by
+  rw [beValue_cons, beValue_cons]; simp [beValue_nil]
+
+theorem beValue_three (a b c : UInt8) : beValue [a, b, c] = a.toNat * 65536 + b.toNat * 256 + c.toNat := by
+  rw [beValue_cons, beValue_two]; simp; omega
+
+theorem primRun_u16 (c rest : Bytes) :
+    primRun (do let n ← u16FromPrimitive; pure (n : Int)) c rest = expect (decodeInt false 2 c) rest := by
+  rw [primRun_eq, runG0_bind]
+  unfold u16FromPrimitive
+  rw [runG0_bind]
+  match c with
+  | [] => rw [run_checkHeadUnsigned_nil]; rfl
+  | a :: t =>
+    rw [run_checkHeadUnsigned_cons]
+    by_cases hm : isMinimalTC (a :: t) = true
+    · by_cases ha : a.toNat < 128
+      · simp only [hm, ha, decide_true, Bool.and_self, if_true]
+        rw [runG0_bind, run_remaining, decodeInt_of_minimal _ _ _ hm]
+        have hv := tcValue_of_lt a t ha
+        cases t with
+        | nil =>
+          generalize hg : St ([a] ++ rest) (some [a].length) = g
+          simp only [List.length_cons, List.length_nil, Nat.zero_add]
+          subst hg
+          rw [runG0_bind, run_takeU8_cons]
+          simp only [runG0_pure]
+          rw [run_exhausted_Win]
+          have hr : inRange false 2 (tcValue [a]) = true := by
+            rw [inRange_unsigned, hv, beValue_cons]
+            simp [beValue_nil]; omega
+          rw [if_pos hr, hv, beValue_cons]
+          simp [beValue_nil, expect]
+        | cons b t2 =>
+          have hb := UInt8.toNat_lt b
+          cases t2 with
+          | nil =>
+            generalize hg : St ([a, b] ++ rest) (some [a, b].length) = g
+            simp only [List.length_cons, List.length_nil, Nat.zero_add]
+            subst hg
+            rw [runG0_bind, run_takeU8_cons]
+            simp only
+            rw [runG0_bind, run_takeU8_cons]
+            simp only [runG0_pure]
+            rw [run_exhausted_Win]
+            have hr : inRange false 2 (tcValue [a, b]) = true := by
+              rw [inRange_unsigned, hv, beValue_two]; simp; omega
+            rw [if_pos hr, hv, beValue_two, shl8_or]
+            simp [expect]
+          | cons b2 t3 =>
+            have hb2 := UInt8.toNat_lt b2
+            cases t3 with
+            | nil =>
+              generalize hg : St ([a, b, b2] ++ rest) (some [a, b, b2].length) = g
+              simp only [List.length_cons, List.length_nil, Nat.zero_add]
+              subst hg
+              rw [runG0_bind, run_takeU8_cons]
+              simp only
+              by_cases h0 : a = 0
+              · subst h0
+                simp only [bne_self_eq_false, Bool.false_eq_true, if_false]
+                rw [runG0_bind, run_takeU8_cons]
+                simp only
+                rw [runG0_bind, run_takeU8_cons]
+                simp only
+                rw [isMinimalTC_cons2] at hm
+                have hb128 : 128 ≤ b.toNat := by
+                  have : (0 : UInt8).toNat = 0 := rfl
+                  omega
+                rw [shl8_or]
+                have hnlt : ¬ (b.toNat * 256 + b2.toNat < 0x8000) := by omega
+                simp only [hnlt, if_false, runG0_pure]
+                rw [run_exhausted_Win]
+                have hv' : tcValue [0, b, b2] = ((b.toNat * 256 + b2.toNat : Nat) : Int) := by
+                  rw [hv, beValue_three]; simp
+                have hr : inRange false 2 (tcValue [0, b, b2]) = true := by
+                  rw [inRange_unsigned, hv']; simp; omega
+                rw [if_pos hr, hv']
+                simp [expect]
+              · have hne : (a != 0) = true := by simp [h0]
+                simp only [hne, if_true, runG0_contentErr]
+                have ha1 : 1 ≤ a.toNat := by
+                  apply Decidable.byContradiction; intro hn
+                  exact h0 (UInt8.toNat_inj.mp (by simp; omega))
+                have hr : ¬ inRange false 2 (tcValue [a, b, b2]) = true := by
+                  rw [inRange_unsigned, hv, beValue_three]
+                  simp; omega
+                rw [if_neg hr]; rfl
+            | cons b3 t' =>
+              generalize hg : St ((a :: b :: b2 :: b3 :: t') ++ rest) (some (a :: b :: b2 :: b3 :: t').length) = g
+              simp only [List.length_cons, runG0_contentErr]
+              have hr : ¬ inRange false 2 (tcValue (a :: b :: b2 :: b3 :: t')) = true := by
+                have hbig := tcValue_minimal_big a b (b2 :: b3 :: t') hm
+                have hneg : 0 ≤ tcValue (a :: b :: b2 :: b3 :: t') := by rw [hv]; exact beValue_nonnegI _
+                have hP := powI_pos t'.length
+                rw [inRange_unsigned]
+                simp only [List.length_cons, powI_succ, Int.pow_zero] at hbig ⊢
+                omega
+              rw [if_neg hr]; rfl
+      · have hr := not_inRange_unsigned_of_ge 2 a t (by omega)
+        simp only [ha, decide_false, Bool.and_false, Bool.false_eq_true, if_false]
+        rw [decodeInt_of_minimal _ _ _ hm, if_neg hr]; rfl
+    · simp only [hm, Bool.false_and, Bool.false_eq_true, if_false]
+      rw [decodeInt_of_not_minimal _ _ _ hm]; rfl
+
+/-- **C14, decoding.**  For every one of the ten fixed-width accessors (`Primitive::to_i8 … to_u128`),
+    every content `c` and every following data `rest`: the accessor (followed by the framework's
+    exhaustion check) returns the mathematical value of `c` and leaves the source exactly behind the
+    content iff `c` is the minimal two's complement form of a number in the type's range
+    (`Spec.decodeInt`); in every other case it fails with a content error.  There is no input on which
+    it panics, wraps or truncates.  The accessors do not look at the mode, so this holds in every mode. -/
+theorem decode_eq_spec (ty : IntTy) (c rest : Bytes) :
+    primRun (toInt ty) c rest =
+      match decodeInt ty.signed ty.width c with
+      | some v => .ok (v, St rest (some 0))
+      | none => .error .content := by
+  have key : primRun (toInt ty) c rest = expect (decodeInt ty.signed ty.width c) rest := by
+    cases ty with
+    | i8 => exact primRun_i8 c rest
+    | i16 => exact primRun_decodeSigned 2 (by decide) c rest
+    | i32 => exact primRun_decodeSigned 4 (by decide) c rest
+    | i64 => exact primRun_decodeSigned 8 (by decide) c rest
+    | i128 => exact primRun_decodeSigned 16 (by decide) c rest
+    | u8 => exact primRun_u8 c rest
+    | u16 => exact primRun_u16 c rest
+    | u32 => exact primRun_decodeUnsigned 4 c rest
+    | u64 => exact primRun_decodeUnsigned 8 c rest
+    | u128 => exact primRun_decodeUnsigned 16 c rest
+  rw [key]
+  cases decodeInt ty.signed ty.width c <;> rfl
+
+/-- the accessor succeeds exactly on the minimal forms of in-range numbers … -/
+theorem decode_ok_iff (ty : IntTy) (c rest : Bytes) (v : Int) (g : G0) :
+    primRun (toInt ty) c rest = .ok (v, g) ↔
+      (isMinimalTC c = true ∧ inRange ty.signed ty.width (tcValue c) = true ∧ v = tcValue c ∧
+        g = St rest (some 0)) := by
+  rw [decode_eq_spec]
+  unfold decodeInt
+  by_cases h1 : isMinimalTC c = true
+  · by_cases h2 : inRange ty.signed ty.width (tcValue c) = true
+    · simp only [h1, h2, Bool.and_self, if_true, Except.ok.injEq, Prod.mk.injEq, true_and]
+      constructor
+      · intro ⟨a, b⟩; exact ⟨a.symm, b.symm⟩
+      · intro ⟨a, b⟩; exact ⟨a.symm, b.symm⟩
+    · simp [h1, h2]
+  · simp [h1]
+
+/-- … and every failure is a content error (never a panic). -/
+theorem decode_err (ty : IntTy) (c rest : Bytes) (e : Err) (h : primRun (toInt ty) c rest = .error e) :
+    e = .content := by
+  rw [decode_eq_spec] at h
+  cases hd : decodeInt ty.signed ty.width c with
+  | some v => rw [hd] at h; simp at h
+  | none => rw [hd] at h; simp at h; exact h.symm
 end Bcder.Props.C14
